@@ -167,7 +167,6 @@ func (c *Ctx) useSiteConstants() map[string]string {
 	}
 	wants := []want{
 		{"newChunkedDocumentCoder", 0},
-		{"getChunkSize", 0}, {"getChunkSize", 1}, {"getChunkSize", 2},
 		{"newChunkedIntCoder", 0},
 		{"newWithChunkMode", 2},
 		{"mergeSegmentBasesWriter", 3},
@@ -286,6 +285,32 @@ func (c *Ctx) useSiteConstants() map[string]string {
 		// polarity of a comparison is spelled, are not part of the format
 		sort.Strings(ks)
 		out[fnm+": arithmetic constants"] = strings.Join(ks, " ")
+	}
+	// doc-value chunk size: what the content coders are sized with and what the reader divides by,
+	// folded to constants (a getChunkSize call with a constant legacy mode folds to that mode)
+	{
+		ws, rs := c.dvChunkSizes()
+		fold := func(sites []dvChunkSite) string {
+			var vs []string
+			for _, s := range sites {
+				if s.ok {
+					vs = append(vs, fmt.Sprint(s.v))
+				} else {
+					vs = append(vs, "non-constant")
+				}
+			}
+			sort.Strings(vs)
+			// the number of sites is not format: one entry per distinct value
+			var uniqVs []string
+			for i, v := range vs {
+				if i == 0 || v != vs[i-1] {
+					uniqVs = append(uniqVs, v)
+				}
+			}
+			return strings.Join(uniqVs, " ")
+		}
+		out["doc-value chunk size (writers)"] = fold(ws)
+		out["doc-value chunk size (reader)"] = fold(rs)
 	}
 	// termSeparator initial value
 	for _, f := range c.Root.Syntax {
